@@ -2024,6 +2024,8 @@ impl<'a> Ev<'a> {
     fn builtin_method(&self, mut st: St, recv: &Val, name: &str, args: Vec<Val>, sp: proc_macro2::Span) -> Outs {
         let rv = self.deref(&st, recv);
         let args: Vec<Val> = args.into_iter().map(|a| self.deref(&st, &a)).collect();
+        // Vec's other spellings of "append all of these"
+        let name = if name == "extend_from_slice" { "extend" } else { name };
         if let Some(outs) = self.lib_method(st.clone(), &rv, name, &args, sp) { return outs; }
         let v = match (name, &rv) {
             ("value", Val::Sym { ty, path }) if ty.name() == Some("Flag") => Val::Atom(F::A(path.clone())),
@@ -2258,7 +2260,8 @@ impl<'a> Ev<'a> {
                 let parsed = syn::parse::Parser::parse2(Punctuated::<syn::Expr, syn::Token![,]>::parse_terminated, mac.tokens.clone());
                 match parsed {
                     Ok(exprs) => {
-                        let es: Vec<&syn::Expr> = exprs.iter().collect();
+                        // `span = expr` (format_ident!'s named argument) sets the span only
+                        let es: Vec<&syn::Expr> = exprs.iter().filter(|e| !matches!(e, syn::Expr::Assign(a) if name == "format_ident" && matches!(&*a.left, syn::Expr::Path(p) if p.path.is_ident("span")))).collect();
                         let mut r = Vec::new();
                         for (s2, a) in self.eval_args(st, &es) {
                             match a {
